@@ -30,20 +30,42 @@ ATTR_CANDIDATES = [
     ("allocatable", "mold=p"), ("allocatable", "n"), ("free_pattern", "pat"), ("free_pattern", "nosuch"),
     ("api", "buf"), ("api", "capi"), ("api", "cfi"), ("api", "bogus"),
     ("default", "1"), ("name", "other"), ("nosuchattribute", True), ("pure", True), ("template", "T"),
+    # attributes that take a value, written without one
+    ("intent", True), ("rank", True), ("deref", True), ("owner", True), ("implied", True), ("len", True), ("api", True),
+    ("free_pattern", True), ("allocatable", True), ("name", True), ("len_trim", True), ("size", True),
+    # the argument of size/len/len_trim is not an argument name; text after a complete expression
+    ("implied", "size(3)"), ("implied", "size(p+1)"), ("implied", "len(3)"), ("implied", "size(p) 4"), ("implied", "n 1"),
+    ("dimension", "3 4"), ("dimension", "n,2 n"), ("rank", "8"), ("rank", "7"),
+    # documented form +name=scalar with a number where text is expected (and +len=30, documented)
+    ("intent", "=1"), ("implied", "=1"), ("dimension", "=2"), ("name", "=1.5"), ("deref", "=1"), ("owner", "=x"), ("len", "=30"),
+    ("charlen", "=8"), ("rank", "=1"), ("free_pattern", "=1"),
 ]
 
 ARG_SHAPES = ["int a", "int *p", "const int *p", "int &p", "char *p", "const char *p", "char **p", "std::string &p",
               "const std::string &p", "std::vector<int> &p", "const std::vector<double> &p", "void *p", "bool a",
-              "void (*p)(int)", "Color a", "Class1 *p", "Class1 &p", "double **p"]
+              "void (*p)(int)", "Color a", "Class1 *p", "Class1 &p", "double **p",
+              # {A}: the attributes go on the parameter of the function pointer / on the defaulted first parameter
+              "void (*cb)(int x{A})", "void (*cb)(int *p{A})", "void (*cb)(std::vector<int> &p{A})", "int a{A} = 1"]
+DEFAULT_FIRST = ARG_SHAPES.index("int a{A} = 1")
 RESULT_SHAPES = ["void", "int", "int *", "const char *", "std::string", "const std::string &", "std::vector<int>",
                  "Class1 *", "Class1 &", "double *", "bool", "void *", "char"]
+
+
+TMPL_HEADERS = ["", "template<>", "template<typename T>", "template<class T>", "template<typename T, typename U>", "template<int N>"]
+TMPL_BODIES = ["void f()", "void f(T a)", "T f(U a)", "T *f(int n)", "class C", "class Class1", "int v", "T v", "namespace inner", "typedef int ty",
+               "struct S { T a; }", "void f(Class1<T> *p)", "void f(std::vector<T> &a)"]
+TMPL_INSTANCES = [None, ["<int>"], ["<int>", "<double>"], ["<int,double>"], ["<>"], ["int"], ["<nosuchtype>"], ["<int"], []]
 
 
 def attr_text(pair):
     if pair is None:
         return ""
     k, v = pair
-    return " +%s" % k if v is True else " +%s(%s)" % (k, v)
+    if v is True:
+        return " +%s" % k
+    if v.startswith("="):
+        return " +%s%s" % (k, v)
+    return " +%s(%s)" % (k, v)
 
 
 def site_of(ex):
@@ -53,6 +75,15 @@ def site_of(ex):
         if "/shroud/" in fr.filename:
             site = (os.path.basename(fr.filename), fr.name, (fr.line or "").strip())
     return site
+
+
+def via_of(ex):
+    """Innermost frame in generate.py / ast.py: tells apart failures that end in the same utility (tokenizer, un_camel)."""
+    via = None
+    for fr in traceback.extract_tb(ex.__traceback__):
+        if fr.filename.endswith(("/shroud/generate.py", "/shroud/ast.py")):
+            via = fr.name
+    return via
 
 
 def generate_only(d):
@@ -92,7 +123,12 @@ class AttrHarness(object):
         self.picks = picks
         at = "".join(attr_text(p) for p in picks)
         if self.kind == "arg":
-            self.decl = "void f(%s%s, int n, int *q)" % (ARG_SHAPES[self.shape], at)
+            shape = ARG_SHAPES[self.shape]
+            shape = shape.replace("{A}", at) if "{A}" in shape else shape + at
+            self.decl = "void f(%s, int n, int *q)" % shape
+        elif self.kind == "tmpl":
+            self.decl = None
+            return self.run_template(e)
         elif self.kind == "var":
             self.decl = "%s%s" % (ARG_SHAPES[self.shape].replace(" p", " gv").replace(" a", " gv").replace("*p", "*gv").replace("&p", "*gv"), at)
         else:
@@ -100,8 +136,24 @@ class AttrHarness(object):
         generate_only(base_library([{"decl": self.decl}]))
         return "accepted"
 
+    def run_template(self, e):
+        """kind='tmpl': a template header, a declaration body and a cxx_template list, each engine-chosen."""
+        idx = []
+        for name, lst in (("hdr", TMPL_HEADERS), ("body", TMPL_BODIES), ("inst", TMPL_INSTANCES)):
+            v = z3.Int("tmpl_" + name)
+            e.assume(z3.And(v >= 0, v < len(lst)))
+            idx.append(e.choose(v))
+        self.decl = ("%s %s" % (TMPL_HEADERS[idx[0]], TMPL_BODIES[idx[1]])).strip()
+        self.entry = {"decl": self.decl}
+        if TMPL_INSTANCES[idx[2]] is not None:
+            self.entry["cxx_template"] = [{"instantiation": t} for t in TMPL_INSTANCES[idx[2]]]
+        generate_only(base_library([copy.deepcopy(self.entry)]))
+        return "accepted"
+
     def witness(self, what, extra=None):
         w = {"kernel": "attrs", "decl": self.decl, "what": what}
+        if self.kind == "tmpl":
+            w["entry"] = getattr(self, "entry", None)
         if extra:
             w.update(extra)
         return w
@@ -117,10 +169,14 @@ class AttrHarness(object):
                     return {"cls": cls, "violation": self.witness("reachability twin"), "vkey": "twin"}
                 return {"cls": cls + "/rejected", "sample": self.witness(None)}
             site = site_of(value)
+            via = via_of(value)
+            key = "internal/%s@%s:%s" % (type(value).__name__, site[1] if site else None, site[2] if site else None)
+            if via and site and via != site[1]:
+                key += ";via=" + via
             return {"cls": cls + "/internal:" + type(value).__name__,
                     "violation": self.witness("internal %s: %s" % (type(value).__name__, str(value)[:120]),
-                                              {"exc": type(value).__name__, "site": list(site) if site else None}),
-                    "vkey": "internal/%s@%s:%s" % (type(value).__name__, site[1] if site else None, site[2] if site else None)}
+                                              {"exc": type(value).__name__, "site": list(site) if site else None, "via": via}),
+                    "vkey": key}
         why = documented_misuse(self.kind, self.shape, self.picks)
         if why:
             return {"cls": cls + "/accepted-misuse", "violation": self.witness("silently accepted although %s" % why, {"misuse": why}),
@@ -146,6 +202,20 @@ def documented_misuse(kind, shape, picks):
             # documented for 'char *arg+intent(out)'; the std::string spelling of the same thing is tolerated
             if not (is_text and nind == 1):
                 return "charlen is only for a character argument with one level of indirection (docs: size of a char *arg+intent(out))"
+        if shape == DEFAULT_FIRST and (not picks or picks[-1] is None or picks[-1][1] is not True):
+            # (after a valueless attribute, '= 1' is that attribute's value, documented form +name=scalar, not a default)
+            return "a parameter without a default value follows one that has a default value (not a C++ declaration)"
+    if kind in ("arg", "var", "result"):
+        r = attrs.get("rank")
+        if isinstance(r, str) and r.lstrip("-").isdigit() and not 0 <= int(r) <= 7:
+            return "rank must be 0-7"
+        inner = kind == "arg" and "(*cb)" in ARG_SHAPES[shape]
+        for k in ("dimension", "implied"):
+            if k == "implied" and inner:
+                continue        # implied is documented for the function's own arguments; on a callback's parameter it is not read
+            v = attrs.get(k)
+            if isinstance(v, str) and trailing_text(v):
+                return "the value of %s has text after a complete expression" % k
     if "nosuchattribute" in attrs:
         return "the attribute name 'nosuchattribute' is not one Shroud knows"
     if "dimension" in attrs and attrs["dimension"] is True:
@@ -154,6 +224,33 @@ def documented_misuse(kind, shape, picks):
         # (an empty `+dimension()` is not covered by the documented rule and is left out)
         return "rank and dimension cannot be specified together"
     return None
+
+
+def trailing_text(v):
+    """Two operands with no operator between them at parenthesis depth 0 (decided on the characters; independent of
+    Shroud's tokenizer): e.g. '3 4', 'size(p) 4', 'n,2 n'."""
+    import re
+    toks = re.findall(r"[A-Za-z_][A-Za-z_0-9]*|[0-9]+|\S", v)
+    prev_operand = False
+    depth = 0
+    for i, t in enumerate(toks):
+        if t == "(":
+            if depth == 0 and prev_operand and not re.match(r"[A-Za-z_]", toks[i - 1]):
+                return True
+            depth += 1
+            prev_operand = False
+            continue
+        if t == ")":
+            depth -= 1
+            prev_operand = True
+            continue
+        if depth > 0:
+            continue
+        operand = bool(re.match(r"[A-Za-z_0-9]", t))
+        if operand and prev_operand:
+            return True
+        prev_operand = operand
+    return False
 
 
 def make_attr(**kw):
@@ -269,7 +366,7 @@ def confirm(w):
     """Plain re-run.  Returns (reproduced, detail)."""
     try:
         if w["kernel"] == "attrs":
-            generate_only(base_library([{"decl": w["decl"]}]))
+            generate_only(base_library([copy.deepcopy(w["entry"]) if w.get("entry") else {"decl": w["decl"]}]))
         else:
             generate_only(copy.deepcopy(w["input"]))
     except OK_EXC as ex:
@@ -292,6 +389,8 @@ def specs(tier):
     for i in (0, 1, 4, 7):
         out.append(("harness.c17_kernels", "make_attr", dict(kind="var", shape=i, nattr=1)))
         labels.append("attributes on variable %r" % ARG_SHAPES[i])
+    out.append(("harness.c17_kernels", "make_attr", dict(kind="tmpl", shape=0, nattr=0)))
+    labels.append("template header x declaration x cxx_template list")
     out.append(("harness.c17_kernels", "make_yaml", {}))
     labels.append("YAML structure: shapes of two fields")
     return out, labels
